@@ -29,6 +29,10 @@ def _stats_ok(got, x, n_lead, V, what):
     """cached (mean, std) equal those of the leading n_lead entries (rows for 2-D)"""
     lead = np.asarray(x)[:n_lead]
     m, s = float(np.mean(lead.astype(LD))), float(np.std(lead.astype(LD)))
+    if got[0] is None or got[1] is None:
+        V('stats_prefix', '%s: the quantiser holds no cached statistics after the call (%r); the leading %d samples have (%r, %r)'
+          % (what, got, len(lead), m, s))
+        return False
     gm, gs = float(got[0]), float(got[1])
     scale = max(abs(m), abs(s), 1e-300)
     if abs(gm - m) > 1e-9 * scale or abs(gs - s) > 1e-9 * scale:
